@@ -207,7 +207,8 @@ func genAddr(r *rand.Rand, kind int) string {
 	case 3:
 		return pick(r, append(append([]string{"@", "pipe"}, hostnames...), v4s...))
 	default:
-		return pick(r, []string{":", ":80", "host:", "a:b:c", "::1", "[::1]", "x:y:", ":::"})
+		return pick(r, []string{":", ":80", "host:", "a:b:c", "::1", "[::1]", "x:y:", ":::", "[]:80", "[:80", "[x]:", "[]]:80",
+			"[[::1]]:80", "]:80", "[:", "[a]b:1", "a[::1]:80", "[::1]:80:90", "[]", "[", "]"})
 	}
 }
 
@@ -251,8 +252,9 @@ func genEvent(r *rand.Rand, utcOnly bool, clean bool) *logger.Event {
 		d = -d
 	}
 	e := &logger.Event{Start: end.Add(-d), End: end}
-	// at most one of the three known defects can show in one event (zone, brackets,
-	// missing port), so that a repair of one of them is judged on its own
+	// at most one of the three formerly defective features (zone, brackets, missing port)
+	// per event: all three were repaired in /repo; the separation is kept so that reverting
+	// one of the repairs is judged on its own
 	feature := r.Intn(3)
 	if end.Location() != time.UTC {
 		feature = 0
